@@ -239,6 +239,7 @@ class Pool:
         self.spawn_attempts = []
         self.spawn_facts = {}
         self.spawn_fail_names = set()
+        self.blank_tids = []
         self.pending_names = []
         self.log_fail_names = set()
         self.ignore_term = ignore_term
@@ -297,6 +298,10 @@ class Pool:
         for tid, nm in self.names.items():
             if script == "job " + nm:
                 return tid
+        if isinstance(script, str) and script.strip() == "":
+            for tid in self.blank_tids:              # a task whose script is blank (a grouping target): the oldest one not yet started
+                if self.proc_of(tid) is None and tid not in self.spawn_attempts:
+                    return tid
         return None
 
     def spawn_fails(self, script):
@@ -311,7 +316,10 @@ class Pool:
             self.spawn_fail_names.add(name)
         self.pending_names.append(name)
         # "q#2" is a second task *named* q (two projects sharing a pool, or a target resubmitted after a cancel): the part after # only keeps the scripts apart
-        tid = self.loop.run_coro(self.sched.enqueue_task(name=name.split("#")[0], script="job " + name, working_dir=self.ROOT, time_limit=time_limit, deps=list(deps)))
+        blank = name.endswith("!e")                # "g!e": a target called g whose script is blank
+        tid = self.loop.run_coro(self.sched.enqueue_task(name=name.split("#")[0].replace("!e", ""), script="  \n" if blank else "job " + name, working_dir=self.ROOT, time_limit=time_limit, deps=list(deps)))
+        if blank:
+            self.blank_tids.append(tid)
         self.deps[tid] = list(deps)
         self.names[tid] = name
         self.history.append(("enqueue", tid))
@@ -355,5 +363,5 @@ class Pool:
         return None
 
     def log(self, name, stream):
-        f = self.world.files.get("%s/.gwf/logs/%s.%s" % (self.ROOT, name.split("#")[0], stream))
+        f = self.world.files.get("%s/.gwf/logs/%s.%s" % (self.ROOT, name.split("#")[0].replace("!e", ""), stream))
         return None if f is None else f[1]
